@@ -155,6 +155,33 @@ CHECKS["C04"] = dict(
    note=TB + "LKCD block lists are tied by the differential stream only; SADUMP, s390 and Xen are not exercised here; KVADDR through page tables is "
         "exercised on the implementation only. Findings recorded: cache-resize-uaf, small-cache-busy, mmap-policy-eof.",
    technique="Lean 4 proof (cache transparency over all histories) + metamorphic fresh-context oracle", design="§6 C04")
+CHECKS["C08"] = dict(
+   text="Partial: proved for the generic layout machinery and the page-table scanners, observed for the per-architecture set-up decisions. Lean proofs over "
+        "models of sys.c (sys_set_layout, act_direct/act_rdirect/act_ident_*, sys_set_physmaps) and of the recursive scanners of step.c over the proved C02 "
+        "walk model: direct_def, rdirect_direct_id (the reverse direct map round-trips for any prior state), physmaps_ident, layout_total, fast_linear_*; "
+        "on the x86-64 4- and 5-level forms with arbitrary tables lowest_mapped / lowest_unmapped / highest_mapped return exactly the least/greatest "
+        "mapped/unmapped address and never run out of fuel; highest_linear is sound. Tie and property evaluation: synthesized kernel images (x86_64 Linux "
+        "4/5-level, KASLR text and direct-map offsets, negative phys_base, version present/absent, 4K/2M/1G direct map, each symbol present/absent, SME; "
+        "Xen 3.x-4.x incl. BIGMEM; ia32 PAE and non-PAE; riscv64 Sv39/48/57; aarch64 4K/16K/64K) through the real addrxlat_sys_os_init, then every sampled "
+        "address through the fast paths, the hardware map and an independent walk, and physical addresses through the reverse direct map and back.",
+   note=TB + "addrxlat_sys_os_init and the per-architecture decision logic are covered by the image stream only (x86_64_fastpath_eq_walk is not proved); "
+        "s390x, arm and ppc64 set-up, Linux-under-Xen p2m and kdumpfile/vtop.c are not exercised. Findings recorded: ia32-rdirect-without-vmalloc-start, "
+        "xen-text-region-stub-pages.",
+   technique="Lean 4 proof (layout actions, scanner specifications) + synthesized-image differential", design="§6 C08")
+CHECKS["C05"] = dict(
+   text="Lean proof over a small-step interleaving semantics of N threads (N arbitrary) running the cache_get_page protocol over the proved C06 cache model, "
+        "cache_lock, the shared rwlock and per-buffer content tags: for every capacity, thread count and schedule — pins_eq_holders, quiescent_unpinned, "
+        "the C06 invariant, no_wrong_bytes, busy_only_when_full, cache operations only under cache_lock (for reachable states), mutual exclusion, writer "
+        "exclusion, no deadlock, acyclic lock order; and, for the code as found (unlocked reference drop), the negations with concrete 2-thread witnesses. "
+        "Tie: pthread mutex/rwlock, inflate, pread and mmap are interposed and the four cache entry points wrapped: every cache operation is checked against "
+        "the model's lock table (a mutation outside cache_lock is flagged deterministically), the observed and the statically extracted lock-order graphs "
+        "must be acyclic and within the model's, event logs of a cooperative scheduler (scripted scenarios, then seeded PCT) are replayed on the model "
+        "(lookup result and full cache state after every operation), stress with 2-16 real threads on clones at cache.size n, n-1, 1; ThreadSanitizer "
+        "build in the thorough tier.",
+   note=TB + "The theorem is about the protocol model; instruction-level interleavings, memory ordering and pthread itself are outside it (two purely "
+        "data-race defects were found by ThreadSanitizer only). Two threads missing on the same page both fill the same buffer with identical bytes: "
+        "recorded in the evidence, not a violation.",
+   technique="Lean 4 proof (invariant over all schedules) + lock-discipline monitor + cooperative-scheduler replay", design="§6 C05")
 NOT_YET = {}
 
 def main():
